@@ -96,11 +96,11 @@ ADDENDA = {
     "C03": "Also: value_as_term enters read-back with a binder depth equal to the Lambda binders it builds itself.",
     "C04": "Also (MIR, resolved callees): the plain CBOR integer form is chosen by a fallible conversion from >=128 bits into pallas' Int and the negative bignum payload is -1-n computed on big integers in both directions; serialiseData's re-encoder routes each Data constructor to its own re-encoder, writes lists indefinite unless empty and maps definite, and hands byte strings / integers to pallas' own encoders; the G1 and G2 arms of each BLS builtin unwrap the same argument kinds and raise the same errors, and multiScalarMul bounds every scalar of the whole list.",
     "C06": "Also: close_scope assigns back exactly what open_new_scope saved (Hydrator and Environment); every lowering of a call in CodeGenerator::build wraps a non-Data argument for a Data parameter in cast_to_data (sibling agreement of 4 sites).",
-    "C07": "Also: every find-by-case on the decision tree's case matrices / relevant columns that updates on a hit creates the entry on a miss, seeded from the default rows (6 sibling sites); equality on exhaustive::Literal / Pattern is derived or free of lossy conversions. At run time: the tail case for a list length is chosen by longest fitting prefix (never by table position), tail rows are distributed over inclusive ranges, hoisted clause bodies get their arguments in parameter order, constructor indices are derived only where @tag is read; in the checker: the local constructor table answers only for local types and clause alternatives keep their source order. A back-passed `let` stays a `let`; missing record patterns are printed with labels in field order; a new case matrix starts from the default rows unconditionally.",
+    "C07": "Also: every find-by-case on the decision tree's case matrices / relevant columns that updates on a hit creates the entry on a miss, seeded from the default rows (6 sibling sites); equality on exhaustive::Literal / Pattern is derived or free of lossy conversions. At run time: the tail case for a list length is chosen by longest fitting prefix (never by table position), tail rows are distributed over inclusive ranges, hoisted clause bodies get their arguments in parameter order, constructor indices are derived only where @tag is read; in the checker: the local constructor table answers only for local types and clause alternatives keep their source order. A back-passed `let` stays a `let`; missing record patterns are printed with labels in field order; a new case matrix starts from the default rows unconditionally. Int literal patterns reach the checker and the decision tree through one canonicalising function.",
     "C09": "Also: the module-constant cache is keyed by a structured (module, name) key built field by field, never by a flattened string.",
     "C10": "Also: mkCons admits an element only when its whole type equals the list's element type (derived equality on Type), the invariant later arms discharge `unreachable!` on; no partial reader of Data integers aborts on the bignum forms. builtin currying emits closed definitions (discharges the optimiser's final try_from(..).unwrap()). The constant folder leaves no constant the flat encoder refuses (discharges the serialiser's unwrap on compiler output).",
     "C11": "Also: every InternKey is built from both the text and the previous unique of its inputs, unconditionally, and compared / hashed by derived impls.",
-    "C12": "Also: a schema's definition key follows every type-variable binding its content follows (sibling conditions of Reference::from_type and Annotated::do_from_type); constant folding to Data decides map-vs-list from the list's element type. constructor positions are turned into indices only in functions that read @tag. The @tag lookup is the same chained lookup at the schema generator, the code generator and the expect decoder, and @list does not depend on the record sugar; no literal constructor index after constrData; nested type parameters are bound in a copy of the caller's bindings; the decoder skips a traversal only when every component is Data; each handler's definitions start empty; orphan-pair pruning records every dependent.",
+    "C12": "Also: a schema's definition key follows every type-variable binding its content follows (sibling conditions of Reference::from_type and Annotated::do_from_type); constant folding to Data decides map-vs-list from the list's element type. constructor positions are turned into indices only in functions that read @tag. The @tag lookup is the same chained lookup at the schema generator, the code generator and the expect decoder, and @list does not depend on the record sugar; no literal constructor index after constrData; nested type parameters are bound in a copy of the caller's bindings; the decoder skips a traversal only when every component is Data; each handler's definitions start empty; orphan-pair pruning records every dependent. Validator parameters of @list types are cast; the binders a hoisted decoder synthesises carry names no field can have.",
     "C13": "Also: tuple-index suffixes are printed with the function the lexer validates them with; the formatter omits a validator's `else` only when it is exactly what the parser synthesises; element-dropping iterator adaptors in formatter methods are enumerated and reviewed. Capture holes are recognised by the prefix of their generated name; call / field access / tuple index parenthesise an operator expression they apply to; the `expect e` shorthand excludes back-passing and a pipe elides only an unlabelled hole; comments popped before an early return are printed; blank lines count as newlines for statement starts; every kind of argument name prints its label; `if x is T` is sugar only for `if x is x: T`.",
     "C16": "Also: the seeded run, the shrinker's replays and the final report evaluate the property through one method under one budget (ExBudget::max()); a candidate replaces the counterexample only under `candidate <=/< current` comparisons on length or sequence; recorded and replayed choices use inverse byte orders (one reversal on each side, cursor = number of choices); the iteration counter is decremented once per executed run, unconditionally.",
     "C08": "Also: a branch shared by several Plutus versions names no single version in its body.",
